@@ -319,6 +319,64 @@ def check(ctx):
     r4.require_floor(20, "calls inside verbose-/visualisation-controlled regions")
     rules.append(r4)
 
+    # ---------------------------------------------------------------- D5
+    r5 = Rule("C13-D5-file-placement", "D5",
+              "the per-file pass of analyze_project_with_verbose only *fills* the cross-file type-definition index (TypeDependencyGraph::add_type_definition); "
+              "nothing inside that loop — its body, the closures it creates, the functions they call — *queries* the index, which at that point knows "
+              "only the files that sort before the current one",
+              "a decision taken on the half-built index depends on which file an item lives in: moving an unchanged struct to another file changes the output")
+    FILL = {"TypeDependencyGraph::add_type_definition"}
+    QUERY = {"TypeDependencyGraph::has_type_definition", "TypeDependencyGraph::get_type_definition_path", "TypeDependencyGraph::get_resolved_types",
+             "TypeDependencyGraph::get_dependencies", "TypeDependencyGraph::topological_sort_types", "TypeDependencyGraph::visualize_dependencies",
+             "TypeDependencyGraph::generate_dot_graph"}
+    memo_f = {}
+    n_loops = 0
+    for f in P.find("CommandAnalyzer::analyze_project_with_verbose"):
+        fills = [c for c in f.calls if c.bb in f.reach_blocks and any(P.reaches(t, lambda k: short_path(k.best) in FILL, memo_f) for t in P.targets(c))]
+        if not fills:
+            r5.bad(V(r5.id, f.id, "missing:index-fill", "anchor not found: the per-file pass does not fill the type-definition index"))
+            continue
+        for fc in fills:
+            loops = [body for (h, body) in f._natural_loops() if fc.bb in body]
+            if not loops:
+                r5.notes.append("index filled outside a loop at line %s" % fc.line)
+                continue
+            n_loops += 1
+            body = max(loops, key=len)      # the outermost loop around the fill: the pass over the files
+            entries = set()
+            direct = []
+            for b in sorted(body):
+                for st in f.blocks[b]["stmts"]:
+                    rv = st.get("rv")
+                    if rv and rv["k"] == "aggr" and rv.get("agg") in ("closure", "coroutine", "coroutine_closure") and rv.get("closure") in P.fns:
+                        entries.add(rv["closure"])
+                c = f.call_at(b)
+                if c is not None:
+                    if short_path(c.best) in QUERY:
+                        direct.append(c)
+                    entries.update(P.targets(c))
+                    for a in c.args:
+                        k = a.get("const") if isinstance(a, dict) else None
+                        if k and k.get("closure") in P.fns:
+                            entries.add(k["closure"])
+            inner = P.reachable(entries)
+            hits = [(f, c) for c in direct]
+            for gid in sorted(inner):
+                g = P.fns[gid]
+                for c in g.calls:
+                    if short_path(c.best) in QUERY and c.bb in g.reach_blocks:
+                        hits.append((g, c))
+            if hits:
+                for (g, c) in hits:
+                    r5.bad(V(r5.id, g.id, "partial-index-queried:%s" % short_path(c.best).split("::")[-1],
+                             "%s is called inside the per-file pass (through %s) while the index only holds the files analysed so far" % (short_path(c.best), short_path(g.id)), c.file, c.line))
+            else:
+                r5.ok("per-file pass (%d blocks, %d functions below it) never queries the type-definition index" % (len(body), len(inner)))
+    if not n_loops:
+        r5.bad(V(r5.id, "<anchor>", "missing:per-file-loop", "anchor not found: no loop fills the type-definition index"))
+    r5.require_floor(1, "per-file passes")
+    rules.append(r5)
+
     return finish(
         PROP, ctx, rules,
         "Type-driven enumeration of every unordered-iteration consumer reachable from the entry points with automatic "
